@@ -32,7 +32,7 @@ RULE = (
     "(anti-vacuity, reported). Non-trivial: a history in which request i is run at least twice with a different request "
     "in between. (d) one election with >20 reporting units and outlier models on, a bootstrap margin request and a "
     "conformal vote-count request run alternately on the SAME frame objects: each result equals the request's result on "
-    "fresh frames. (e) national summary after one bootstrap run: the same call twice gives the same table, and a level's "
+    "fresh frames. (e) national summary after one bootstrap run: the same call twice gives the same table, the same call gives the same table as a client's first call and after calls with other bases and levels, and a level's "
     "numbers are the same whether it is asked for together with other levels or alone on an identical client. Distinct = history shape (sequence of rule names and estimators)."
 )
 ASSUMPTIONS = [
@@ -365,14 +365,23 @@ def check_summary(case, ctx):
         return
     levels = sorted(set(c["req"]["alphas"]) | {0.5, 0.9})
     try:
+        # the very first summary call of a client: one level, base 0
+        t0 = r1.client.get_national_summary_votes_estimates(None, 0, levels[:1]).to_dict("list")
         a1 = r1.client.get_national_summary_votes_estimates(None, 0, levels).to_dict("list")
         a2 = r1.client.get_national_summary_votes_estimates(None, 0, levels).to_dict("list")
         single = {}
-        for lv in reversed(levels):  # other client: one level per call, in another order
+        # other client: first a call with other arguments (all levels, another base), then one level per call, in
+        # another order
+        r2.client.get_national_summary_votes_estimates(None, 7, levels)
+        for lv in reversed(levels):
             d = r2.client.get_national_summary_votes_estimates(None, 0, [lv]).to_dict("list")
             single[lv] = (d["agg_pred"][0], d[f"lower_{lv}"][0], d[f"upper_{lv}"][0])
+        t0_later = d  # the same arguments as t0, after a history of calls with other arguments
     except Exception as e:
         ctx.violation("exception", f"national summary: {type(e).__name__}: {e}", case, sig=exc_signature(e))
+        return
+    if t0 != t0_later:
+        ctx.violation("summary_differs", f"summary(None, 0, {levels[:1]}) as a client's first call: {t0}; after calls with other bases and levels on an identical client: {t0_later}", dict(case, replay_part="summary"), sig="summary_history")
         return
     if a1 != a2:
         ctx.violation("summary_differs", f"two consecutive summary calls with equal arguments: {a1} then {a2}", dict(case, replay_part="summary"), sig="summary_repeat")
